@@ -41,10 +41,14 @@ def _cache_file(XSH, script):
     return get_cache_filename(script, code=False)
 
 
-def _code_cache_file(text):
+def _code_cache_file(text, mode):
     from xonsh.codecache import code_cache_name, get_cache_filename
 
-    return get_cache_filename(code_cache_name(text), code=True)
+    try:
+        name = code_cache_name(text, mode)
+    except TypeError:  # a tree whose cache name does not depend on the mode
+        name = code_cache_name(text)
+    return get_cache_filename(name, code=True)
 
 
 def _damage(path, kind):
@@ -166,9 +170,9 @@ def run(ctx, scn):
                 py = not ctx["calls"]
                 obs = {"ctx": py, "mode": ("single" if buf.getvalue().strip() == "7" else "exec") if py else "?", "fatal": fatal, "msg": buf.getvalue()[:200]}
             elif cmd == "damagecode":
-                if not os.path.exists(_code_cache_file(TEXTS[st["a"]][2])):
+                if not os.path.exists(_code_cache_file(TEXTS[st["a"]][2], st["c"])):
                     break
-                _damage(_code_cache_file(TEXTS[st["a"]][2]), st["b"])
+                _damage(_code_cache_file(TEXTS[st["a"]][2], st["c"]), st["b"])
             else:
                 raise ValueError(cmd)
             steps.append({"cmd": cmd, "a": st.get("a", 0), "b": st.get("b", 0), "c": st.get("c", 0), "sw": st.get("sw", scn["sw"]), "obs": obs})
